@@ -500,6 +500,10 @@ pub struct Outcome {
     pub panic:        Option<PanicInfo>,
     pub record:       verif::Record,
     pub polls:        u64,
+    /// The interval the watchdog object handed to the library answers from
+    /// `poll_every()` (for `WdKind::Flag`: the library's own `FlagWatchdog`,
+    /// built with `polling_every(plan.poll_every)`).
+    pub interval_seen: usize,
     pub first_true:   Option<u64>,
     pub first_true_site: Option<usize>,
     pub trues:        u64,
@@ -1154,6 +1158,7 @@ impl Default for RunOpts {
 pub fn run(sc: &Scenario, opts: &RunOpts) -> Outcome {
     verif::reset(hook_params(&sc.sched, opts.record_trace, opts.record_folds));
     let (wd, stats) = make_watchdog(&sc.wd);
+    let interval_seen = wd.poll_every();
     LAST_PANIC.with(|p| *p.borrow_mut() = None);
     CAPTURE.with(|c| c.set(true));
     let result = panic::catch_unwind(AssertUnwindSafe(|| run_body(sc, wd)));
@@ -1170,6 +1175,7 @@ pub fn run(sc: &Scenario, opts: &RunOpts) -> Outcome {
         panic: None,
         record,
         polls: stats.polls.get(),
+        interval_seen,
         first_true: stats.first_true.get(),
         first_true_site: stats.site_of_first_true.get(),
         trues: stats.trues.get(),
